@@ -6,6 +6,7 @@ import (
 	"fmt"
 	"go/types"
 	"sort"
+	"strconv"
 	"strings"
 
 	"golang.org/x/tools/go/ssa"
@@ -145,20 +146,26 @@ func c06b(c *Ctx) {
 		}
 		name := s.fn
 		// lookup
+		// the function that interns one record: addImplicit… itself, or a private helper it
+		// calls per record (`args[pos] = p.intern(record)`)
 		var lk *ssa.Lookup
-		instrs(fn, func(in ssa.Instruction) {
-			if l, ok := in.(*ssa.Lookup); ok && l.CommaOk && c.term(fn, l.X) == "$0."+s.set {
-				lk = l
-			}
-		})
+		core := fn
+		for _, m := range c.unitOf(fn) {
+			mf := m.fn
+			instrs(mf, func(in ssa.Instruction) {
+				if l, ok := in.(*ssa.Lookup); ok && l.CommaOk && c.term(mf, l.X) == "$0."+s.set {
+					lk, core = l, mf
+				}
+			})
+		}
 		if lk == nil {
-			c.Bad(name+"/lookup", c.W.FuncPos(fn), "no comma-ok lookup in "+s.set)
+			c.Bad(name+"/lookup", c.W.FuncPos(core), "no comma-ok lookup in "+s.set)
 			continue
 		}
-		keyT := c.term(fn, lk.Index)
+		keyT := c.term(core, lk.Index)
 		elem := ""
 		if s.keyKind == "text" {
-			_, kf := c.withFields(fn, keyT)
+			_, kf := c.withFields(core, keyT)
 			ok := kf != nil && strings.HasSuffix(kf["value"], ".text.Literal") && strings.HasSuffix(kf["strType"], ".stringType") && strings.TrimSuffix(kf["value"], ".text.Literal") == strings.TrimSuffix(kf["strType"], ".stringType")
 			c.Check(ok, name+"/key", c.W.Pos(lk.Pos()), "dedup key = (text content, string type) of the record", "dedup key is "+pretty(keyT)+", expected {value: record.text.Literal, strType: record.stringType}")
 			if kf != nil {
@@ -170,49 +177,105 @@ func c06b(c *Ctx) {
 			c.Check(ok, name+"/key", c.W.Pos(lk.Pos()), "dedup key = key of the record's steps", "dedup key is "+pretty(keyT))
 			elem = strings.TrimSuffix(strings.TrimPrefix(kt, "parser.getMovementsKey("), ".movements)")
 		}
-		hit := "+" + c.term(fn, lk) + "#1"
-		miss := "-" + c.term(fn, lk) + "#1"
+		hit := "+" + c.term(core, lk) + "#1"
+		miss := "-" + c.term(core, lk) + "#1"
 		// stores into command.Args[argPos]
 		nHit, nMiss := 0, 0
 		labelT := ""
-		instrs(fn, func(in ssa.Instruction) {
-			st, ok := in.(*ssa.Store)
-			if !ok {
-				return
-			}
-			ia, ok := st.Addr.(*ssa.IndexAddr)
-			if !ok {
-				return
-			}
-			target := c.term(fn, ia.X) + "[" + c.term(fn, ia.Index) + "]"
-			if target != elem+".command.Args["+elem+".argPos]" {
-				if strings.Contains(target, ".command.Args[") {
-					c.Bad(name+"/patch-target", c.W.Pos(st.Pos()), "label stored into "+pretty(target)+", expected record.command.Args[record.argPos]")
+		recElem := elem // the record in fn's own terms
+		if core != fn {
+			// the label is the helper's result: hit and miss are its returns
+			for _, r := range returnsOf(core) {
+				if len(r.Results) != 1 {
+					continue
 				}
-				return
+				must := c.mustLits(core, r.Block())
+				v := c.term(core, r.Results[0])
+				switch {
+				case hasLit(must, hit):
+					nHit++
+					c.Check(v == c.term(core, lk)+"#0", name+"/hit-uses-stored-label", c.W.Pos(r.Pos()), "known content: argument gets the label stored for it", "on a dedup hit the helper returns "+pretty(v)+", expected the label found in the set")
+				case hasLit(must, miss):
+					nMiss++
+					labelT = v
+					want := "parser." + s.labelFn + "(" + elem + ".scriptName,$0." + s.counts + "[" + elem + ".scriptName])"
+					c.Check(v == want, name+"/miss-new-label", c.W.Pos(r.Pos()), "new content: label made from the owning script and its counter", "on a miss the helper returns "+pretty(v)+", expected "+pretty(want))
+				}
 			}
-			must := c.mustLits(fn, st.Block())
-			v := c.term(fn, st.Val)
-			switch {
-			case hasLit(must, hit):
-				nHit++
-				c.Check(v == c.term(fn, lk)+"#0", name+"/hit-uses-stored-label", c.W.Pos(st.Pos()), "known content: argument gets the label stored for it", "on a dedup hit the argument gets "+pretty(v)+", expected the label found in the set")
-			case hasLit(must, miss):
-				nMiss++
-				labelT = v
-				want := "parser." + s.labelFn + "(" + elem + ".scriptName,$0." + s.counts + "[" + elem + ".scriptName])"
-				c.Check(v == want, name+"/miss-new-label", c.W.Pos(st.Pos()), "new content: label made from the owning script and its counter", "on a miss the argument gets "+pretty(v)+", expected "+pretty(want))
-			}
-		})
-		c.Check(nHit == 1 && nMiss == 1, name+"/patch-both-branches", c.W.FuncPos(fn), "the argument is patched on the hit branch and on the miss branch", fmt.Sprintf("argument patched on %d hit and %d miss paths, expected 1 and 1", nHit, nMiss))
+			// and fn stores that result into record.command.Args[record.argPos], for the record it passes
+			okPatch := false
+			recElem = ""
+			instrs(fn, func(in ssa.Instruction) {
+				st, ok := in.(*ssa.Store)
+				if !ok {
+					return
+				}
+				ia, ok := st.Addr.(*ssa.IndexAddr)
+				if !ok {
+					return
+				}
+				target := c.term(fn, ia.X) + "[" + c.term(fn, ia.Index) + "]"
+				if !strings.Contains(target, ".command.Args[") {
+					return
+				}
+				call, isCall := st.Val.(*ssa.Call)
+				if !isCall || callee(call) != core {
+					c.Bad(name+"/patch-target", c.W.Pos(st.Pos()), "the argument is patched with "+pretty(c.term(fn, st.Val))+", expected the interned label")
+					return
+				}
+				k := paramIndexOfTerm(elem)
+				if k < 0 || k >= len(call.Call.Args) {
+					return
+				}
+				rec := c.term(fn, call.Call.Args[k])
+				if target == rec+".command.Args["+rec+".argPos]" {
+					okPatch = true
+					recElem = rec
+				} else {
+					c.Bad(name+"/patch-target", c.W.Pos(st.Pos()), "label stored into "+pretty(target)+", expected record.command.Args[record.argPos] of the record that was interned ("+pretty(rec)+")")
+				}
+			})
+			c.Check(okPatch, name+"/patch-from-helper", c.W.FuncPos(fn), "the interned label is stored into the record's own argument slot", "the label returned by the helper is not stored into record.command.Args[record.argPos]")
+		} else {
+			instrs(fn, func(in ssa.Instruction) {
+				st, ok := in.(*ssa.Store)
+				if !ok {
+					return
+				}
+				ia, ok := st.Addr.(*ssa.IndexAddr)
+				if !ok {
+					return
+				}
+				target := c.term(fn, ia.X) + "[" + c.term(fn, ia.Index) + "]"
+				if target != elem+".command.Args["+elem+".argPos]" {
+					if strings.Contains(target, ".command.Args[") {
+						c.Bad(name+"/patch-target", c.W.Pos(st.Pos()), "label stored into "+pretty(target)+", expected record.command.Args[record.argPos]")
+					}
+					return
+				}
+				must := c.mustLits(fn, st.Block())
+				v := c.term(fn, st.Val)
+				switch {
+				case hasLit(must, hit):
+					nHit++
+					c.Check(v == c.term(fn, lk)+"#0", name+"/hit-uses-stored-label", c.W.Pos(st.Pos()), "known content: argument gets the label stored for it", "on a dedup hit the argument gets "+pretty(v)+", expected the label found in the set")
+				case hasLit(must, miss):
+					nMiss++
+					labelT = v
+					want := "parser." + s.labelFn + "(" + elem + ".scriptName,$0." + s.counts + "[" + elem + ".scriptName])"
+					c.Check(v == want, name+"/miss-new-label", c.W.Pos(st.Pos()), "new content: label made from the owning script and its counter", "on a miss the argument gets "+pretty(v)+", expected "+pretty(want))
+				}
+			})
+		}
+		c.Check(nHit == 1 && nMiss == 1, name+"/patch-both-branches", c.W.FuncPos(core), "the argument is patched on the hit branch and on the miss branch", fmt.Sprintf("argument patched on %d hit and %d miss paths, expected 1 and 1", nHit, nMiss))
 		// miss branch: counter++, set insert, definition append
 		okCounter, okInsert := false, false
-		instrs(fn, func(in ssa.Instruction) {
+		instrs(core, func(in ssa.Instruction) {
 			mu, ok := in.(*ssa.MapUpdate)
-			if !ok || !hasLit(c.mustLits(fn, mu.Block()), miss) {
+			if !ok || !hasLit(c.mustLits(core, mu.Block()), miss) {
 				return
 			}
-			m, k, v := c.term(fn, mu.Map), c.term(fn, mu.Key), c.term(fn, mu.Value)
+			m, k, v := c.term(core, mu.Map), c.term(core, mu.Key), c.term(core, mu.Value)
 			if m == "$0."+s.counts {
 				okCounter = k == elem+".scriptName" && v == "$0."+s.counts+"["+elem+".scriptName]+1"
 				if !okCounter {
@@ -226,55 +289,55 @@ func c06b(c *Ctx) {
 				}
 			}
 		})
-		c.Check(okCounter, name+"/counter", c.W.FuncPos(fn), "the per-script counter used for the label is incremented", "the counter used for the new label is not incremented on the miss path")
-		c.Check(okInsert, name+"/set-insert", c.W.FuncPos(fn), "new label stored under the key that was looked up", "the new label is not stored in the dedup set under the lookup key")
+		c.Check(okCounter, name+"/counter", c.W.FuncPos(core), "the per-script counter used for the label is incremented", "the counter used for the new label is not incremented on the miss path")
+		c.Check(okInsert, name+"/set-insert", c.W.FuncPos(core), "new label stored under the key that was looked up", "the new label is not stored in the dedup set under the lookup key")
 		// definition
-		as := allocsOf(fn, "ast", s.nodeType)
+		as := allocsOf(core, "ast", s.nodeType)
 		var defs []*ssa.Alloc
-		instrs(fn, func(in ssa.Instruction) {
+		instrs(core, func(in ssa.Instruction) {
 			if a, ok := in.(*ssa.Alloc); ok && typeIs(a.Type(), "ast", s.nodeType) && a.Comment == "complit" {
 				defs = append(defs, a)
 			}
 		})
 		_ = as
 		if len(defs) != 1 {
-			c.Bad(name+"/definition", c.W.FuncPos(fn), fmt.Sprintf("expected one %s definition, found %d", s.nodeType, len(defs)))
+			c.Bad(name+"/definition", c.W.FuncPos(core), fmt.Sprintf("expected one %s definition, found %d", s.nodeType, len(defs)))
 			continue
 		}
 		d := defs[0]
-		c.Check(hasLit(c.mustLits(fn, d.Block()), miss), name+"/definition-on-miss-only", c.W.Pos(d.Pos()), "content defined only when it is new", "the definition is not confined to the dedup-miss path")
+		c.Check(hasLit(c.mustLits(core, d.Block()), miss), name+"/definition-on-miss-only", c.W.Pos(d.Pos()), "content defined only when it is new", "the definition is not confined to the dedup-miss path")
 		use := lastUse(d)
 		if s.keyKind == "text" {
 			whole := ""
 			for _, ref := range *d.Referrers() {
 				if u, ok := ref.(*ssa.UnOp); ok && u.X == ssa.Value(d) {
-					whole = c.term(fn, u)
+					whole = c.term(core, u)
 				}
 			}
-			_, f := c.withFields(fn, whole)
+			_, f := c.withFields(core, whole)
 			ok := f != nil && f["Name"] == labelT && f["Value"] == elem+".text.Literal" && f["StringType"] == elem+".stringType" && f["Token"] == elem+".text"
 			c.Check(ok, name+"/definition-fields", c.W.Pos(d.Pos()), "definition: Name = label, Value/StringType/Token from the record", "hoisted text is defined with "+pretty(fmt.Sprint(f))+"; expected Name = the new label, Value = record.text.Literal, StringType = record.stringType, Token = record.text")
 		} else {
-			nm := c.fieldAtUse(fn, d, "Name", use)
+			nm := c.fieldAtUse(core, d, "Name", use)
 			nameOK := false
-			for _, ia := range allocsOf(fn, "ast", "Identifier") {
-				if c.term(fn, ia) == nm && c.fieldAtUse(fn, ia, "Value", use) == labelT {
+			for _, ia := range allocsOf(core, "ast", "Identifier") {
+				if c.term(core, ia) == nm && c.fieldAtUse(core, ia, "Value", use) == labelT {
 					nameOK = true
 				}
 			}
-			ok := nameOK && c.fieldAtUse(fn, d, "MovementCommands", use) == elem+".movements" && c.fieldAtUse(fn, d, "Token", use) == elem+".command.Token"
+			ok := nameOK && c.fieldAtUse(core, d, "MovementCommands", use) == elem+".movements" && c.fieldAtUse(core, d, "Token", use) == elem+".command.Token"
 			c.Check(ok, name+"/definition-fields", c.W.Pos(d.Pos()), "definition: Name = label, steps and token from the record", "hoisted movement is not defined with (Name = new label, MovementCommands = record.movements, Token = record.command.Token)")
 		}
 		// appended to the list exactly once
 		nApp := 0
-		for _, st := range storesToField(fn, "parser", "Parser", s.list) {
-			if hasLit(c.mustLits(fn, st.Block()), miss) && strings.HasPrefix(c.term(fn, st.Val), "builtin:append(") {
+		for _, st := range storesToField(core, "parser", "Parser", s.list) {
+			if hasLit(c.mustLits(core, st.Block()), miss) && strings.HasPrefix(c.term(core, st.Val), "builtin:append(") {
 				nApp++
 			}
 		}
 		c.Check(nApp == 1, name+"/definition-appended-once", c.W.Pos(d.Pos()), "definition appended once to "+s.list, fmt.Sprintf("definition appended %d times", nApp))
 		// full range over the records
-		c.Check(strings.HasPrefix(elem, "$1[phi(") && strings.HasSuffix(elem, "+1]"), name+"/all-records", c.W.FuncPos(fn), "every record is processed in order", "records are not processed by a full in-order range ("+pretty(elem)+")")
+		c.Check(strings.HasPrefix(recElem, "$1[phi(") && strings.HasSuffix(recElem, "+1]"), name+"/all-records", c.W.FuncPos(fn), "every record is processed in order", "records are not processed by a full in-order range ("+pretty(recElem)+")")
 	}
 	// movement key: steps joined with a separator that cannot occur in an identifier
 	if fn := c.Fn("parser.getMovementsKey"); fn != nil {
@@ -582,4 +645,16 @@ func c06c(c *Ctx) {
 		}
 	}
 	_ = sort.Strings
+}
+
+// paramIndexOfTerm: k for a term "$k", -1 otherwise.
+func paramIndexOfTerm(t string) int {
+	if !strings.HasPrefix(t, "$") {
+		return -1
+	}
+	k, err := strconv.Atoi(t[1:])
+	if err != nil {
+		return -1
+	}
+	return k
 }
